@@ -21,7 +21,7 @@ import (
 func init() {
 	Registry["C16"] = &Check{
 		Scenarios: c16Scenarios,
-		Rule: "complete grid: hop-by-hop and end-to-end ids from {0,1,2^31,2^32-1}^2 x all 256 command flag bytes x every (application, command) of the embedded dictionaries x result code {0 (none asked), 2001, 5012, 2^32-1} through Message.Answer; the state machine's success CEA, each failure CEA (5010, 5017, 5012) and DWA for the same id grid over an in-memory transport; the same requests arriving on SCTP streams {0,1,5,15} of the in-memory multistream backend (and on a stream-less transport), answered by a handler through Answer().WriteTo and by the state machine: the backend must record the answer on the request's stream, also when the answer to a request is written later, while a request from another stream is being handled (all 16 stream pairs).",
+		Rule: "complete grid: hop-by-hop and end-to-end ids from {0,1,2^31,2^32-1}^2 x all 256 command flag bytes x every (application, command) of the embedded dictionaries x result code {0 (none asked), 2001, 5012, 2^32-1} through Message.Answer; the state machine's success CEA, each failure CEA (5010, 5017, 5012) and DWA for the same id grid over an in-memory transport; the same requests arriving on SCTP streams {0,1,5,15} of the in-memory multistream backend (and on a stream-less transport), answered by a handler through Answer().WriteTo and by the state machine: the backend must record the answer on the request's stream, also when the answer to a request is written later, while a request from another stream is being handled (all 16 stream pairs), also when the first 1 or 2 write attempts of that answer fail with a temporary error and are retried (WriteToWithRetry); and two application goroutines answering requests of different streams concurrently (every schedule up to preemption bound 2, thorough 3).",
 		Assume: []string{"single default schedule per exchange", "in-memory SCTP backend (hook diam/sctp_verif.go)"},
 		QuickBudget: 120, ThoroughBudget: 900,
 	}
@@ -41,6 +41,13 @@ func c16Scenarios(tier string) []*Scenario {
 	}
 	out = append(out, &Scenario{Name: "streams/handler-answer", Seq: c16Streams})
 	out = append(out, &Scenario{Name: "streams/deferred-answer", Seq: c16Deferred})
+	cb := 2
+	if tier == "thorough" {
+		cb = 3
+	}
+	for _, p := range [][2]uint16{{3, 5}, {0, 7}, {5, 0}} {
+		out = append(out, c16Concurrent(p[0], p[1], false, cb), c16Concurrent(p[0], p[1], true, cb))
+	}
 	return out
 }
 
@@ -254,9 +261,12 @@ func c16SM(r *SeqResult, kind string) {
 // request's stream.
 func c16Deferred(r *SeqResult) {
 	streams := []uint16{0, 1, 5, 15}
+	// fails: how many attempts of the FIRST answer's write fail with a temporary error (the answer
+	// is then written with WriteToWithRetry(c, 3)); every attempt must go to the request's stream
+	for _, fails := range []int{0, 1, 2} {
 	for _, s1 := range streams {
 		for _, s2 := range streams {
-			s1, s2 := s1, s2
+			s1, s2, fails := s1, s2, fails
 			var be *vnet.SCTP
 			s := vs.Run(nil, false, 5*time.Second, false, func() {
 				be = vnet.NewSCTP("S")
@@ -267,7 +277,15 @@ func c16Deferred(r *SeqResult) {
 						first = m
 						return
 					}
-					first.Answer(2001).WriteTo(c)
+					if fails > 0 {
+						be.WFail = make([]bool, fails)
+						for i := range be.WFail {
+							be.WFail[i] = true
+						}
+						first.Answer(2001).WriteToWithRetry(c, 3)
+					} else {
+						first.Answer(2001).WriteTo(c)
+					}
 					m.Answer(2001).WriteTo(c)
 				})
 				msc := diam.NewSCTPConnBackend(be)
@@ -300,11 +318,23 @@ func c16Deferred(r *SeqResult) {
 					}
 				}
 			}
+			if v == "" && len(be.Attempts) != 2+fails {
+				v = fmt.Sprintf("%d write attempts, expected %d (%d temporary failures retried)", len(be.Attempts), 2+fails, fails)
+			}
+			if v == "" {
+				for i, a := range be.Attempts[:fails+1] {
+					if a.Stream != s1 {
+						v = fmt.Sprintf("attempt %d of the answer to request 1 (arrived on stream %d) went to stream %d", i+1, s1, a.Stream)
+						break
+					}
+				}
+			}
 			if v != "" {
-				r.Violation = fmt.Sprintf("deferred answer: request 1 on stream %d is answered while request 2 (stream %d) is being handled: %s", s1, s2, v)
-				r.Case = map[string]interface{}{"s1": s1, "s2": s2}
+				r.Violation = fmt.Sprintf("deferred answer: request 1 on stream %d is answered while request 2 (stream %d) is being handled, first %d write attempts fail temporarily: %s", s1, s2, fails, v)
+				r.Case = map[string]interface{}{"s1": s1, "s2": s2, "fails": fails}
 			}
 		}
+	}
 	}
 }
 
@@ -360,4 +390,64 @@ func c16Streams(r *SeqResult) {
 			}
 		}
 	}
+}
+
+// c16Concurrent: two requests arrive on different streams; each handler hands its request to an
+// application goroutine that writes the answer, so two replies are written concurrently on one
+// association. Every schedule of the two writers (and the reader) up to the preemption bound.
+var c16conc *vnet.SCTP
+
+func c16Concurrent(s1, s2 uint16, retry bool, bound int) *Scenario {
+	body := func() {
+		be := vnet.NewSCTP("S")
+		c16conc = be
+		mux := diam.NewServeMux()
+		mux.HandleFunc("ALL", func(c diam.Conn, m *diam.Message) {
+			vs.GoNamed(fmt.Sprintf("worker%d", m.Header.HopByHopID), false, func() {
+				if retry {
+					m.Answer(2001).WriteToWithRetry(c, 1)
+				} else {
+					m.Answer(2001).WriteTo(c)
+				}
+			})
+		})
+		msc := diam.NewSCTPConnBackend(be)
+		if _, err := diam.NewConn(msc, "peer", mux, dict.Default); err != nil {
+			return
+		}
+		be.Deliver(s1, refcodec.EncodeMessage(refcodec.Header{Version: 1, Flags: 0x80, Code: 258, HbH: 1, E2E: 1}, []refcodec.Node{ident(264, "c")}))
+		be.Deliver(s2, refcodec.EncodeMessage(refcodec.Header{Version: 1, Flags: 0x80, Code: 258, HbH: 2, E2E: 2}, []refcodec.Node{ident(264, "c")}))
+	}
+	check := func(s *vs.Sched) string {
+		be := c16conc
+		if p := s.Panics(); len(p) > 0 {
+			return "panic: " + p[0]
+		}
+		if len(be.Writes) != 2 {
+			return fmt.Sprintf("%d answers written for 2 requests (blocked: %v)", len(be.Writes), s.BlockedLib())
+		}
+		for _, w := range be.Writes {
+			h, err := refcodec.DecodeHeader(w.Data)
+			if err != nil || (h.HbH != 1 && h.HbH != 2) {
+				return "an answer that belongs to no request was written"
+			}
+			want := s1
+			if h.HbH == 2 {
+				want = s2
+			}
+			if w.Stream != want {
+				return fmt.Sprintf("two application goroutines answer concurrently: the answer to request %d (arrived on stream %d) was written to stream %d", h.HbH, want, w.Stream)
+			}
+		}
+		return ""
+	}
+	outcome := func(s *vs.Sched) string {
+		var o []string
+		for _, w := range c16conc.Writes {
+			h, _ := refcodec.DecodeHeader(w.Data)
+			o = append(o, fmt.Sprintf("%d@%d", h.HbH, w.Stream))
+		}
+		return fmt.Sprint(o)
+	}
+	return &Scenario{Name: fmt.Sprintf("streams/concurrent-answers/%d+%d/retry=%v", s1, s2, retry), Body: body, Check: check, Outcome: outcome, Bound: bound, Horizon: 5 * time.Second}
 }
